@@ -130,8 +130,21 @@ class Rec:
         return ev
 
 
+def _entry_fits(f):
+    return all(45 + sum(2 + len(v) for v in c.description.values()) <= 255 for c in f.components)
+
+
 def rec_to_binary(rec, f, off, key, **extra):
-    out = f.to_binary(off, key)
+    pj = proj_file(f)["comps"]
+    try:
+        out = f.to_binary(off, key)
+    except Exception as e:                                # noqa: BLE001
+        if isinstance(e, OverflowError) and not _entry_fits(f):
+            raise                                          # the writer refuses an entry longer than 255 bytes: legitimate
+        # the specification defines the bytes of this content: a refusal is recorded as an event with no output (rejected by TLC)
+        ev = {"op": "bf3.to_binary", "comps": pj, "off": off, "key": B(key), "out": [], "exc": exc_info(e)}
+        ev.update(extra)
+        return rec.add(ev), b""
     ev = {"op": "bf3.to_binary", "comps": proj_file(f)["comps"], "off": off, "key": B(key), "out": B(out)}
     ev.update(extra)
     return rec.add(ev), out
@@ -149,7 +162,15 @@ def write_text(f, key, disk, scratch):
 
 
 def rec_write(rec, f, key, disk, scratch):
-    text = write_text(f, key, disk, scratch)
+    pj = proj_file(f)
+    try:
+        text = write_text(f, key, disk, scratch)
+    except Exception as e:                                # noqa: BLE001
+        if isinstance(e, OverflowError) and not _entry_fits(f):
+            raise
+        rec.add({"op": "bf3.write", "comments": pj["comments"], "comps": pj["comps"], "key": B(key), "text": [], "disk": 1 if disk else 0,
+                 "exc": exc_info(e)})
+        return ""                                         # later reads of the empty text are rejected by code and specification alike
     pj = proj_file(f)
     rec.add({"op": "bf3.write", "comments": pj["comments"], "comps": pj["comps"], "key": B(key),
              "text": chars(text), "disk": 1 if disk else 0})
